@@ -8,6 +8,7 @@ import (
 	"os/exec"
 	"path/filepath"
 	"runtime"
+	"runtime/pprof"
 	"sort"
 	"strconv"
 	"strings"
@@ -75,6 +76,7 @@ func cmdCheck(args []string) int {
 	noIfConv := fs.Bool("no-ifconv", false, "disable if-conversion")
 	solver := fs.String("solver", "z3-new", "incremental solver: z3-new|z3|cvc5")
 	maxPaths := fs.Int64("max-paths", 0, "path limit per harness (0 = none)")
+	cpuprof := fs.String("cpuprofile", "", "write CPU profile")
 	var prop string
 	if len(args) > 0 && !strings.HasPrefix(args[0], "-") {
 		prop = args[0]
@@ -90,6 +92,11 @@ func cmdCheck(args []string) int {
 	}
 	seed := envInt("VERIF_SEED", 1)
 	start := time.Now()
+	if *cpuprof != "" {
+		f, _ := os.Create(*cpuprof)
+		pprof.StartCPUProfile(f)
+		defer pprof.StopCPUProfile()
+	}
 	cfg := Config{tier: *tier, seed: seed, workers: *workers, solver: *solver, queryTimeout: 60000,
 		assertTimeout: 60 * time.Second, noIfConv: *noIfConv, budget: 20_000_000, maxPaths: *maxPaths, validate: 25, trace: *trace}
 	if *tier == "thorough" {
